@@ -34,6 +34,23 @@ Proof. exact h_walk_total. Qed.
 Theorem C09_save_never_fails : forall e, exists e', h_save e = Ok e'.
 Proof. exact h_save_total. Qed.
 
+(* (a), (b), THE statement: any sequence of previous-history / next-history /
+   beginning-of-history / end-of-history, each run the way the Readline loop runs a command
+   (run_one: the command with its own Save or SkipSave, no pending operator, the cursor
+   check, iteration bookkeeping, the undo save after the command - the function the
+   correspondence run drives against the implementation), each called with any keys, on
+   EVERY history and every line being entered: the buffer is the k-th newest stored entry,
+   k being the abstract position (0 = the line being entered, 1 = the newest entry, kept
+   within [0, n]: previous = +1, next = -1, beginning = +n, end = 1-n); whenever that
+   position is 0 the buffer is the line that was being entered; the entries never change;
+   the run never fails. *)
+Theorem C09_navigation_is_faithful : forall mk mx cs e, 0 < zlen (hist e) -> hpos e = -1 -> clean e -> pending e = [] ->
+  exists e', run_navs mk mx cs e = Ok e' /\ hist e' = hist e /\
+    let k := nav_fold (zlen (hist e)) (map fst cs) 0 in
+    (k = 0 -> hpos e' = -1 /\ line e' = line e) /\
+    (0 < k -> hpos e' = k /\ line e' = entry e k).
+Proof. exact navigation_is_faithful. Qed.
+
 (* (a), (b) for EVERY history, every line being entered and every sequence of Sources.Walk
    calls of any size and sign (previous-history = Walk 1, next-history = Walk -1,
    beginning-of-history = Walk n, end-of-history = Walk (1 - n), up/down-line-or-history
@@ -61,8 +78,9 @@ Proof. exact walking_back_down_restores_the_line. Qed.
 
 (* non-vacuity: a fresh call on a history of three entries is such a state *)
 Example C09_walk_example : 0 < zlen (hist (ed_init false [zs "ls"; zs "echo a"; zs "pwd"]%string)) /\
-  hpos (ed_init false [zs "ls"; zs "echo a"; zs "pwd"]%string) = -1 /\ clean (ed_init false [zs "ls"; zs "echo a"; zs "pwd"]%string).
-Proof. split; [vm_compute; reflexivity|]. split; [reflexivity|]. intros k Hk. unfold ed_init. cbn [lines lh_get]. replace (-1 =? k) with false by lia. reflexivity. Qed.
+  hpos (ed_init false [zs "ls"; zs "echo a"; zs "pwd"]%string) = -1 /\ clean (ed_init false [zs "ls"; zs "echo a"; zs "pwd"]%string)
+  /\ pending (ed_init false [zs "ls"; zs "echo a"; zs "pwd"]%string) = [].
+Proof. split; [vm_compute; reflexivity|]. split; [reflexivity|]. split; [|reflexivity]. intros k Hk. unfold ed_init. cbn [lines lh_get]. replace (-1 =? k) with false by lia. exact I. Qed.
 
 (* (a), (b) on a concrete run through the command interpreter (Save + Walk per command): three entries, "ec"
    typed, up x4 shows them newest first and stays on the oldest, down x4 restores "ec";
